@@ -24,7 +24,7 @@ reg("C13", "simulations reproducible from their seed, conditioning honoured",
     level="exploration",
     require=dict(distinct=150,
                  oracles=dict(quick={"repro-b2b": 500, "repro-perturbed": 450, "repro-fresh": 450, "seeds-differ": 450,
-                                     "ranks-differ": 700, "cond-exact": 800, "krig-residual": 100, "bounds": 600,
+                                     "ranks-differ": 700, "cond-exact": 800, "krig-residual": 80, "bounds": 600,
                                      "facies-at-data": 40, "ncols": 450},
                               thorough={"repro-b2b": 8000, "repro-perturbed": 7000, "repro-fresh": 7000,
                                         "seeds-differ": 7000, "ranks-differ": 10000, "cond-exact": 10000,
